@@ -445,3 +445,6 @@ RULES = [
     ("C05.MODDIST", 5, rule_moddist),
     ("C05.HKSHAPE", 6, rule_hkshape),
 ]
+
+from . import common as _common_purity
+RULES = RULES + _common_purity.purity_rules("C05")
